@@ -10,3 +10,6 @@ from pyvc.runner import Unit as _Unit, register as _register  # noqa: E402
 for _w in ("manifest", "list"):
     _register(_Unit("C07", f"READERS/read_manifest_{'file' if _w == 'manifest' else 'list_file'}-fallback", _c14.h_reader_fallback(_w),
                     functions=[f"file_manager:FileManager.read_manifest_{'file' if _w == 'manifest' else 'list_file'}"], replay=_c14._replay_fallback))
+
+from contracts import helpers as _HC  # noqa: E402
+_HC.register_under("C07", ["COUNT/recorded_manifest_count", "COUNT/expected_entry_count", "COUNT/_check_count"])
